@@ -428,25 +428,6 @@ def observed_entry(op, a, b, v):
     return "NEW" if a[0] == "reg" and a[1] == v[1] else "?"
 
 
-def classify(st, s, F, bad, pfx="out/"):
-    """known-finding classifiers of this layer (as narrow as the cause; see findings.d/C12.json).
-    C12-inplace-file-through-symlink: the only stale entry is a symbolic link in place of one of the files asn1c rewrites in place
-    (asn1c_open_file without a temporary: open(O_WRONLY) follows the link).  Link to a file: the link stays, the generated text is
-    written THROUGH it (the link target holds exactly the fresh content) and nothing else differs.  Dangling link: open() fails with
-    ENOENT, exit 70, the run stops at that file."""
-    ops = st["ops"]
-    if len(ops) == 1 and ops[0][0] == "symlink" and ops[0][1] in INPLACE:
-        f, how = ops[0][1], ops[0][2]
-        if how == "dangling":
-            if s["rc"] == 70 and ("%s%s: No such file or directory" % (pfx, f)) in s["se"]:
-                return "C12-inplace-file-through-symlink"
-            return None
-        tgt = s["side"].get(f + ".target")
-        if s["rc"] == 0 and all(b[0] == f and "kind reg/sym" in b[1] for b in bad) and tgt and tgt[1] == F[f][1] and s["after"].get(f, ("",))[0] == "sym":
-            return "C12-inplace-file-through-symlink"
-    return None
-
-
 def eval_dir(run, case, res, model_out=None):
     """model_out: {(state index, file): "SAME" | "DIFF"}"""
     mode = case["mode"]
@@ -549,12 +530,12 @@ def eval_dir(run, case, res, model_out=None):
         if s["rc"] == 0:
             for p in makefile_problems({k: v for k, v in A.items() if k in F}, pfx):
                 bad.append(("Makefile.am.libasncodec", p))
+        for o in st["ops"]:
+            if o[0] == "symlink" and o[2] == "diff" and o[1] in F:
+                t = s["side"].get(o[1] + ".target")
+                if t is not None and t[1] == F[o[1]][1]:
+                    bad.append((o[1], "the file the stale symbolic link pointed to (outside the output directory) was overwritten with the generated text"))
         if bad:
-            cls = classify(st, s, F, bad, pfx)
-            if cls:
-                run.known_finding(cls, "%s %s" % (case["name"], label))
-                run.count("outdir_known:" + cls)
-                continue
             run.violation("oracle:outdir-state", dict(rep, what="the output of asn1c depends on what the output directory held before the run",
                           differences=["%s: %s" % b_ for b_ in bad[:8]], ndiff=len(bad),
                           stderr_about=[l for l in s["se"].split("\n") if any(b_[0] in l for b_ in bad[:3])][:6]))
